@@ -852,14 +852,17 @@ class Interp:
             return (a.pos - b.pos) * a.step
         if isinstance(a, Interval) or isinstance(b, Interval):
             return interval_binop(op, a, b)
-        if isinstance(a, Poly) or isinstance(b, Poly):
+        if (isinstance(a, Poly) or isinstance(b, Poly)) and not isinstance(a, float) and not isinstance(b, float) \
+                and isinstance(a, (Poly, int)) and isinstance(b, (Poly, int)):
             if op == "+":
                 return Poly.of(a) + Poly.of(b)
             if op == "*":
                 return Poly.of(a) * Poly.of(b)
             if op == "-":
                 return Poly.of(a) + Poly.of(b) * Poly.of(-1)
-            raise AnalysisBroken("interp: operator %s on symbolic polynomial values" % op)
+            return self.world.sym_binop(op, a, b)
+        if isinstance(a, float) and isinstance(b, Poly) or isinstance(b, float) and isinstance(a, Poly):
+            return self.world.sym_binop(op, a, b)
         if not isinstance(a, (int, float, bool)) or not isinstance(b, (int, float, bool)):
             return self.world.sym_binop(op, a, b)
         if isinstance(a, bool):
@@ -1290,6 +1293,28 @@ class Interp:
                     items = sorted(items)
                 a.seq[a.pos:b.pos] = items
                 return None
+        if bn in ("std::partial_sort", "std::nth_element") and len(args_n) in (3, 4):
+            a, m_, b = V(0), V(1), V(2)
+            if isinstance(a, Iter) and isinstance(m_, Iter) and isinstance(b, Iter) and a.seq is b.seq and a.seq is m_.seq:
+                import functools
+                items = a.seq[a.pos:b.pos]
+                if len(args_n) == 4:
+                    cmpf = V(3)
+
+                    def cmp(x, y):
+                        if self.truth(self.call_closure(cmpf, [x, y], e)):
+                            return -1
+                        if self.truth(self.call_closure(cmpf, [y, x], e)):
+                            return 1
+                        return 0
+                    items = sorted(items, key=functools.cmp_to_key(cmp))
+                else:
+                    items = sorted(items)
+                k_ = m_.pos - a.pos
+                # the order of the elements past `middle` is unspecified by the standard: the model
+                # picks the least helpful one (descending), so code relying on it is exposed
+                a.seq[a.pos:b.pos] = items[:k_] + items[k_:][::-1]
+                return None
         if bn == "std::tie":
             return TieRefs([A(i) for i in range(len(args_n))])
         if bn == "std::tuple::operator=" and e.get("obj") is not None:
@@ -1530,6 +1555,14 @@ class Interp:
                 return obj
             if name in ("operator bool", "<conv>"):
                 return self.rv(obj) is not None
+        if op in ("+", "-", "+=", "-=") and (e.get("obj") is not None or len(args_n) == 2):
+            ops_ = ([OBJ()] if e.get("obj") is not None else []) + [A(i) for i in range(len(args_n))]
+            if len(ops_) == 2 and isinstance(self.rv(ops_[0]), Iter):
+                r_ = self.arith(op[0], ops_[0], ops_[1])
+                if op in ("+=", "-=") and isinstance(ops_[0], Ref):
+                    ops_[0].set(r_)
+                    return ops_[0]
+                return r_
         if op in CMP_OPS:
             ops = ([OBJ()] if e.get("obj") is not None else []) + [A(i) for i in range(len(args_n))]
             if len(ops) == 2:
